@@ -431,8 +431,21 @@ def main(argv=None):
             import multiprocessing as mp
 
             ctx = mp.get_context("spawn")
-            with ctx.Pool(min(args.jobs, len(tasks))) as pool:
-                results = list(pool.imap_unordered(run_task, tasks))
+            # a change to the code under test may make a call loop forever: every task has a (generous) wall-clock
+            # limit after which the run is declared inconclusive (harness error, exit 2) - never a violation
+            limit = float(os.environ.get("VERIF_TASK_TIMEOUT", "1500" if args.tier == "quick" else "14400"))
+            pool = ctx.Pool(min(args.jobs, len(tasks)))
+            try:
+                pending = [(t, pool.apply_async(run_task, (t,))) for t in tasks]
+                deadline = time.time() + limit
+                for t, ar in pending:
+                    try:
+                        results.append(ar.get(timeout=max(1.0, deadline - time.time())))
+                    except mp.TimeoutError:
+                        harness_errors.append(f"{t[1]}[{t[4]}]: no result within {limit:.0f}s (inconclusive)")
+                pool.terminate()
+            finally:
+                pool.join()
     results.sort(key=lambda r: (r["sub"], r["shard"]))
 
     for r in results:
